@@ -62,9 +62,12 @@ def child_main(cfg):
         """one mutating event is about to happen"""
         st["n"] += 1
         if st["n"] == kill_at:
-            if log:
-                log.flush()
-            os._exit(77)
+            if cfg.get("kill_mode") == "mid_state" and ev.get("ev") == "state":
+                st["mid"] = True  # the kill lands INSIDE the state transaction (see set_many below)
+            else:
+                if log:
+                    log.flush()
+                os._exit(77)
         if log:
             st["busy"] = True
             try:
@@ -174,12 +177,23 @@ def child_main(cfg):
         rows = _rows(items) if st["on"] else []
         if rows:
             tick({"ev": "state", "rows": rows})
+        if st.get("mid"):
+            # killed inside the transaction: half of the rows written, nothing committed
+            if log:
+                log.flush()
+            with self.transact(retry):
+                orig_set_many(self, items[: max(1, len(items) // 2)], retry)
+                os._exit(77)
         return orig_set_many(self, items, retry)
 
     def setitem(self, key, value):
         rows = _rows([(key, value)]) if st["on"] else []
         if rows:
             tick({"ev": "state", "rows": rows})
+        if st.get("mid"):
+            with self.transact():
+                orig_setitem(self, key, value)
+                os._exit(77)
         return orig_setitem(self, key, value)
 
     cache_mod.HashesCache.set_many = set_many
@@ -215,12 +229,28 @@ def child_main(cfg):
 
     HashFileDB.add = add
     LocalHashFileDB.oids_exist = oids_exist
+    from dvc_objects.db import ObjectDB
+
+    orig_exist_base = ObjectDB.oids_exist
+
+    def oids_exist_base(self, oids, *a, **kw):
+        oids = list(oids)
+        if self.path == store:
+            info(kind="query", oids=oids)
+        return orig_exist_base(self, oids, *a, **kw)
+
+    ObjectDB.oids_exist = oids_exist_base
     from dvc_data.hashfile.hash_info import HashInfo
     from dvc_data.hashfile.state import State
     from dvc_data.hashfile.transfer import transfer
 
     state = State(root_dir=root, tmp_dir=os.path.join(root, "st"))
-    odb = LocalHashFileDB(localfs, store, state=state, verify=bool(cfg.get("store_verify", False)))
+    if cfg.get("cls") == "base":  # the generic store class on a local file system: no trust by mode, no protection
+        from dvc_objects.fs.local import LocalFileSystem
+
+        odb = HashFileDB(LocalFileSystem(), store, state=state, verify=bool(cfg.get("store_verify", False)))
+    else:
+        odb = LocalHashFileDB(localfs, store, state=state, verify=bool(cfg.get("store_verify", False)))
     vkw = {"verify": True} if cfg.get("verify") else {}  # per-call verification
     if cfg.get("hardlink"):
         vkw["hardlink"] = True  # transfer(..., hardlink=True): workspace files are linked into the store
@@ -230,7 +260,10 @@ def child_main(cfg):
     st["on"] = True
     if scn == "stage_transfer":
         staging, _meta, obj = build(odb, ws, localfs, "md5")
-        transfer(staging, odb, {obj.hash_info}, shallow=False, **vkw)
+        ids = {obj.hash_info}
+        if cfg.get("shallow"):  # as DVC calls it: the directory AND its files are requested, directories not expanded
+            ids |= {hi for _, _, hi in obj}
+        transfer(staging, odb, ids, shallow=bool(cfg.get("shallow")), **vkw)
         result = obj.hash_info.value
     elif scn == "upload":
         staging, _meta, obj = build(odb, ws, localfs, "md5", upload=True)
@@ -248,7 +281,10 @@ def child_main(cfg):
         result = sorted(e.hash_info.value for _, e in idx.iteritems() if e.hash_info and e.hash_info.isdir)
     elif scn == "store_transfer":
         src = LocalHashFileDB(localfs, os.path.join(root, "src"))
-        transfer(src, odb, {HashInfo("md5", cfg["request"])}, shallow=False, **vkw)
+        ids = {HashInfo("md5", cfg["request"])}
+        if cfg.get("shallow"):
+            ids |= {HashInfo("md5", o) for o in cfg["request_files"]}
+        transfer(src, odb, ids, shallow=bool(cfg.get("shallow")), **vkw)
         result = cfg["request"]
     elif scn == "multi_store":  # one transfer() of several directory objects (sharing files) of a source store
         src = LocalHashFileDB(localfs, os.path.join(root, "src"))
@@ -283,9 +319,21 @@ RULE = (
     "pre-existing destination objects drawn from ctx.rng. For each scenario EVERY mutating event "
     "(incl. two synthetic points inside each temp copy: created-empty, half-written) is a crash point: "
     "the child is killed there, the store is audited, the operation re-run, audited again. A crash "
-    "point is non-trivial when the crashed store differs from both the initial and the final store."
+    "point is non-trivial when the crashed store differs from both the initial and the final store. "
+    "A FIXED corpus (tools/COVERAGE_AUDIT.md) runs first in every run: hardlink x verify (per call / store default) "
+    "x check_exists x shallow for add / transfer / index.save / upload; base and local store class; protected and "
+    "unprotected source stores; starting stores holding the right object protected / unprotected, a corrupt "
+    "unprotected one, the empty leftover, temp files of an earlier crash; unusual names, empty directories, the "
+    "empty listing, zero-length and duplicate files, depth >= 3; additionally a kill INSIDE every state transaction "
+    "and one double crash (crash, re-run killed again, re-run) per scenario."
 )
 ASSUMPTIONS = [
+    "a bare odb.add(check_exists=False) asserts that none of the names exists; after a crash that cannot be asserted, so "
+    "its re-run is add(check_exists=True) (transfer() re-establishes the assertion with its existence query); re-adding "
+    "an existing object with check_exists=False is outside the quantifier (with hardlink=True it truncates the "
+    "workspace file through the shared inode)",
+    "destinations are of the local store class, except two fixed base-class cases (save, add+verify); a base-class "
+    "destination's existence query does not verify contents (reported finding, see C15_PENDING)",
     "durability is not modelled: a kill (os._exit) loses no completed system call; fsync, power loss and torn "
     "renames are environment hypotheses (rename/replace is atomic, SQLite transactions are atomic)",
     "crash points are the audit events raised by CPython for file-system mutations below the store root plus the "
@@ -679,6 +727,8 @@ def setup(root, sc):
 
     os.makedirs(root, exist_ok=True)
     impl.mk_tree(os.path.join(root, "ws"), sc["tree"])
+    for dn in sc.get("empty_dirs") or []:  # empty directories / directories holding only empty sub-directories
+        os.makedirs(os.path.join(root, "ws", *dn.split("/")), exist_ok=True)
     store = os.path.join(root, "cache")
     os.makedirs(store, exist_ok=True)
     if sc["scenario"] in ("store_transfer", "multi_store"):
@@ -686,27 +736,45 @@ def setup(root, sc):
         for rp, b in sc["tree"].items():
             # bad_src: a partial / mismatching object under its final name in the SOURCE (protected, so the
             # local source's own existence query trusts it)
-            impl.plant(src, md5(b), (b[: len(b) // 2] + b"?") if rp == sc.get("bad_src") else b)
+            impl.plant(src, md5(b), (b[: len(b) // 2] + b"?") if rp == sc.get("bad_src") else b,
+                       mode=0o444 if rp == sc.get("bad_src") else sc.get("src_mode", 0o444))
         for r in root_dirs(sc):
             lb = listing_bytes(root_entries(sc, r))
-            impl.plant(src, md5(lb) + ".dir", lb)
-    for b, mode in sc.get("pre", []):
-        b = bytes(b, "latin1") if isinstance(b, str) else b
-        impl.plant(store, md5(b), b, mode=mode)
+            impl.plant(src, md5(lb) + ".dir", lb, mode=sc.get("src_mode", 0o444))
+    # the store the operation starts from: (content whose name is used, mode[, what the file really holds])
+    for ent in sc.get("pre", []):
+        b, mode = ent[0], ent[1]
+        data = ent[2] if len(ent) > 2 and ent[2] is not None else b
+        impl.plant(store, md5(b), data, mode=mode)
+    if sc.get("tmp_left"):  # temp files left by an earlier crash: next to the objects and at the store root
+        some = sorted(sc["tree"].values())[0]
+        for rel in (os.path.join(md5(some)[:2], ".LEFTOVERleftoverLEFTOV.tmp"), ".ROOTleftoverROOTleft.tmp",
+                    os.path.join(md5(some)[:2], md5(some)[2:] + ".dir.PARTIALpartialPARTIAL.tmp")):
+            fp = os.path.join(store, rel)
+            os.makedirs(os.path.dirname(fp), exist_ok=True)
+            with open(fp, "wb") as f:
+                f.write(some[: max(1, len(some) // 2)])
 
 
 def child_cfg(root, sc, **kw):
     cfg = {"root": root, "scenario": sc["scenario"], "store": "cache", "verify": bool(sc.get("verify")),
-           "store_verify": bool(sc.get("store_verify")), "hardlink": bool(sc.get("hardlink"))}
+           "store_verify": bool(sc.get("store_verify")), "hardlink": bool(sc.get("hardlink")),
+           "shallow": bool(sc.get("shallow")), "cls": sc.get("cls", "local"),
+           "check_exists": bool(sc.get("check_exists", True))}
     if sc["scenario"] == "add":
         cfg["items"] = [[rp, md5(b)] for rp, b in sc["tree"].items()]
     if sc["scenario"] == "store_transfer":
         ents = [(rp, md5(b)) for rp, b in sc["tree"].items()]
         cfg["request"] = md5(listing_bytes(ents)) + ".dir"
+        cfg["request_files"] = sorted({m for _rp, m in ents})
     if sc["scenario"] == "multi_store":
         cfg["requests"] = [md5(listing_bytes(root_entries(sc, r))) + ".dir" for r in root_dirs(sc)]
     if sc["scenario"] == "multi_stage":
         cfg["roots"] = root_dirs(sc)
+    if kw.pop("rerun", False):
+        # a bare add(check_exists=False) asserts that nothing is there: after a crash the caller cannot assert that
+        # any more (transfer() re-establishes it with its existence query), so the re-run is add(check_exists=True)
+        cfg["check_exists"] = True
     cfg.update(kw)
     return cfg
 
@@ -716,6 +784,12 @@ def scen_term(names, sc, events, steps, cuts, t0):
     (set iteration) are read off the child's info lines and passed as oracle arguments"""
     kind = sc["scenario"]
     vcall, vstore = bool(sc.get("verify")), bool(sc.get("store_verify"))
+    if sc.get("bad_src"):
+        return "ScNone"  # a failing upload withholds the directory object: outside the generators
+    if sc.get("cls") == "base":
+        return "ScNone"  # the generators describe the local store class (protection, trust by mode)
+    if sc.get("hardlink") and not (kind == "stage_transfer" and not vcall):
+        return "ScNone"  # linked adds other than the plain hardlink transfer have no generator
     cb = lambda b: "true" if b else "false"  # noqa: E731
     infos = [e for e in events if e["ev"] == "info"]
     adds = [e for e in infos if e["kind"] == "add"]
@@ -734,9 +808,8 @@ def scen_term(names, sc, events, steps, cuts, t0):
                                             lst(it(o) for o in dirs))
     if kind == "add":
         its = adds[0]["oids"] if adds else []
-        return "(ScAdd %s true %d %s)" % (cb(vcall or vstore), t0, lst(it(o) for o in its))
-    if sc.get("bad_src"):
-        return "ScNone"  # a failing upload withholds the directory object: outside the generators
+        return "(ScAdd %s %s %d %s)" % (cb(vcall or vstore), cb(adds[0]["check_exists"] if adds else True), t0,
+                                        lst(it(o) for o in its))
     if kind in ("multi_stage", "multi_store"):
         if not queries:
             return "ScNone"
@@ -783,33 +856,57 @@ def scen_term(names, sc, events, steps, cuts, t0):
 
 # ---- one scenario: uninterrupted run, crash sweep, re-runs ---------------------------------
 
+_FLAGS = ("verify", "store_verify", "hardlink", "shallow", "tmp_left")
+_OPT = ("roots", "bad_src", "cls", "src_mode", "empty_dirs", "label")
+
+
 def jsonable(sc):
-    return {"scenario": sc["scenario"], "tree": {k: v.decode("latin1") for k, v in sc["tree"].items()},
-            "pre": [[b.decode("latin1") if isinstance(b, bytes) else b, m] for b, m in sc.get("pre", [])],
-            "verify": bool(sc.get("verify")), "store_verify": bool(sc.get("store_verify")),
-            "roots": sc.get("roots"), "bad_src": sc.get("bad_src"), "hardlink": bool(sc.get("hardlink"))}
+    out = {"scenario": sc["scenario"], "tree": {k: v.decode("latin1") for k, v in sc["tree"].items()},
+           "pre": [[e[0].decode("latin1"), e[1], (e[2].decode("latin1") if len(e) > 2 and e[2] is not None else None)]
+                   for e in sc.get("pre", [])],
+           "check_exists": bool(sc.get("check_exists", True))}
+    for k in _FLAGS:
+        out[k] = bool(sc.get(k))
+    for k in _OPT:
+        out[k] = sc.get(k)
+    return out
 
 
 def unjson(case):
-    return {"scenario": case["scenario"], "tree": {k: v.encode("latin1") for k, v in case["tree"].items()},
-            "pre": [(b.encode("latin1"), m) for b, m in case.get("pre", [])],
-            "verify": bool(case.get("verify")), "store_verify": bool(case.get("store_verify")),
-            "roots": case.get("roots"), "bad_src": case.get("bad_src"), "hardlink": bool(case.get("hardlink"))}
+    out = {"scenario": case["scenario"], "tree": {k: v.encode("latin1") for k, v in case["tree"].items()},
+           "pre": [(e[0].encode("latin1"), e[1], (e[2].encode("latin1") if len(e) > 2 and e[2] is not None else None))
+                   for e in case.get("pre", [])],
+           "check_exists": bool(case.get("check_exists", True))}
+    for k in _FLAGS:
+        out[k] = bool(case.get(k))
+    for k in _OPT:
+        if case.get(k) is not None:
+            out[k] = case[k]
+    return out
 
 
-def crash_and_rerun(wd, sc, n, tag):
-    """kill the child at event n, audit, re-run, audit"""
+def crash_and_rerun(wd, sc, n, tag, mode=None, m=0):
+    """kill the child at event n (mode 'mid_state': inside the state transaction that event n starts), audit,
+    [re-run killed again at its event m, audit,] re-run, audit"""
     from lib import impl
 
     root = os.path.join(wd, f"k{tag}")
     setup(root, sc)
-    rc, _out, err = run_child(child_cfg(root, sc, kill_at=n, log=os.path.join(wd, f"k{tag}.log")), wd, f"k{tag}")
+    kw = {"kill_mode": mode} if mode else {}
+    rc, _out, err = run_child(child_cfg(root, sc, kill_at=n, log=os.path.join(wd, f"k{tag}.log"), **kw), wd, f"k{tag}")
     a1 = audit(root)
+    a1b, evb, rcb = None, [], None
+    if m:
+        blog = os.path.join(wd, f"b{tag}.log")
+        rcb, _o, _e = run_child(child_cfg(root, sc, kill_at=m, log=blog, rerun=True), wd, f"b{tag}")
+        a1b = audit(root)
+        evb = read_log(blog)
     rlog = os.path.join(wd, f"r{tag}.log")
-    rc2, _out2, err2 = run_child(child_cfg(root, sc, log=rlog, snapshots=True), wd, f"r{tag}")
+    rc2, _out2, err2 = run_child(child_cfg(root, sc, log=rlog, snapshots=True, rerun=True), wd, f"r{tag}")
     a2 = audit(root)
     ev2 = read_log(rlog)
-    res = {"n": n, "rc": rc, "err": err[-400:] if rc not in (0, 77) else "", "a1": a1, "rc2": rc2,
+    res = {"n": n, "mode": mode, "m": m, "rc": rc, "err": err[-400:] if rc not in (0, 77) else "", "a1": a1,
+           "a1b": a1b, "evb": evb, "rcb": rcb, "rc2": rc2,
            "err2": err2[-600:] if rc2 else "", "a2": a2, "ev2": ev2,
            "klog": read_log(os.path.join(wd, f"k{tag}.log"))}
     impl.rm_rf(root)
@@ -828,33 +925,59 @@ def ws_verdicts(sc, a, when):
     return out
 
 
-def classify(sc, r):
-    """oracle verdicts for one crash point: [(signature, what)]"""
-    out = list(judge(r["a1"], "after-crash"))
-    out += ws_verdicts(sc, r["a1"], "after-crash")
-    if r["rc2"] == 0:
-        out += ws_verdicts(sc, r["a2"], "after-rerun")
-    if r["rc2"] != 0:
-        out.append(("C15:rerun-failed", f"re-running after the crash failed: {r['err2'][-300:]}"))
-        return out
-    for sig, what in judge(r["a2"], "after-rerun"):
+def leftover_shape(a, o):
+    c = a["objs"].get(o)
+    return (c is not None and c[0] == EMPTY_MD5 and c[1] != 0o444 and o not in a["rows"]
+            and o.split(".")[0] != EMPTY_MD5)
+
+
+def judge_step(befores, after, events, when):
+    """verdicts on [after], a store reached from the earlier audits [befores] by the runs whose info lines are
+    in [events]: a blessed mismatch is the KNOWN class when an earlier audit shows an empty, unprotected,
+    unvouched file under that name (the reflink probe's leftover shape) and no run put that name to the
+    existence query"""
+    out = []
+    for sig, what in judge(after, when):
         if sig.startswith("C15:blessed-mismatch"):
             o = what.split()[1]
-            c = r["a1"]["objs"].get(o)
-            queried = any(e["ev"] == "info" and e["kind"] == "query" and o in e["oids"] for e in r["ev2"])
-            leftover = (c is not None and c[0] == EMPTY_MD5 and c[1] != 0o444 and o not in r["a1"]["rows"]
-                        and o.split(".")[0] != EMPTY_MD5)
-            if leftover and not queried:
-                out.append((KNOWN_SIG, what + " (the crashed store held an empty unprotected file under that name: "
-                                              "the reflink probe's leftover; the re-run's add(check_exists=True) "
-                                              "skipped the copy, protected it and recorded a state row)"))
+            queried = any(e["ev"] == "info" and e["kind"] == "query" and o in e["oids"] for e in events)
+            if any(leftover_shape(b, o) for b in befores) and not queried:
+                out.append((KNOWN_SIG, what + " (the store held an empty unprotected file under that name: the "
+                                              "reflink probe's leftover; add(check_exists=True) skipped the copy, "
+                                              "protected it and recorded a state row)"))
                 continue
         out.append((sig, what))
     # a directory listing the blessed leftover is the same defect seen from the closure side
     blessed = [w.split()[1] for s_, w in out if s_ == KNOWN_SIG]
-    out = [(s_, w) for s_, w in out
-           if not (s_ == "C15:open-directory:after-rerun" and any(f"lists {o} which mismatches" in w for o in blessed))]
-    return out
+    return [(s_, w) for s_, w in out
+            if not (s_.startswith("C15:open-directory") and any(f"lists {o} which mismatches" in w for o in blessed))]
+
+
+def classify(sc, r, a0=None):
+    """oracle verdicts for one crash point: [(signature, what)]"""
+    befores = [a for a in (a0,) if a is not None]
+    evs = list(r["klog"])
+    out = judge_step(befores, r["a1"], evs, "after-crash")
+    out += ws_verdicts(sc, r["a1"], "after-crash")
+    befores.append(r["a1"])
+    if r.get("a1b") is not None:
+        evs += r["evb"]
+        out += judge_step(befores, r["a1b"], evs, "after-second-crash")
+        out += ws_verdicts(sc, r["a1b"], "after-second-crash")
+        befores.append(r["a1b"])
+    if r["rc2"] != 0:
+        out.append(("C15:rerun-failed", f"re-running after the crash failed: {r['err2'][-300:]}"))
+        return out
+    out += ws_verdicts(sc, r["a2"], "after-rerun")
+    out += judge_step(befores, r["a2"], evs + r["ev2"], "after-rerun")
+    # one defect, one report: the same object blessed at several audits of one crash point
+    seen, uniq = set(), []
+    for s_, w in out:
+        key = (s_, w.split()[1] if s_ == KNOWN_SIG else w)
+        if key not in seen:
+            seen.add(key)
+            uniq.append((s_, w))
+    return uniq
 
 
 def execute_full(args):
@@ -882,8 +1005,9 @@ def execute_full(args):
 
 
 def _crash_job(args):
-    wd, sc, n = args
-    return crash_and_rerun(wd, sc, n, str(n))
+    wd, sc, n, mode, m = args
+    tag = str(n) + ("s" if mode else "") + (f"x{m}" if m else "")
+    return crash_and_rerun(wd, sc, n, tag, mode=mode, m=m)
 
 
 def _worker_init(paths):
@@ -903,24 +1027,37 @@ def execute_all(ctx, scs, labels):
     with ProcessPoolExecutor(max_workers=nw, mp_context=multiprocessing.get_context("spawn"),
                              initializer=_worker_init, initargs=(list(sys.path),)) as ex:
         datas = list(ex.map(execute_full, list(zip(wds, scs, labels))))
-        jobs = []
+        jobs, extra = [], []
         for wd, sc, d in zip(wds, scs, datas):
-            n_ev = len([e for e in d["events"] if e["ev"] not in ("end", "info")])
-            jobs += [(wd, sc, n) for n in range(1, n_ev + 1)]
+            body = [e for e in d["events"] if e["ev"] not in ("end", "info")]
+            jobs += [(wd, sc, n, None, 0) for n in range(1, len(body) + 1)]
+            # kills INSIDE each state transaction; one double crash (crash -> re-run killed again -> re-run)
+            mids = [i + 1 for i, e in enumerate(body) if e["ev"] == "state"]
+            ex_jobs = [(wd, sc, n, "mid_state", 0) for n in mids]
+            if body:
+                n1 = ctx.rng.randint(2, len(body))
+                ex_jobs.append((wd, sc, n1, None, ctx.rng.randint(1, 9)))
+                if ctx.tier != "quick":
+                    ex_jobs.append((wd, sc, ctx.rng.randint(2, len(body)), None, ctx.rng.randint(1, 25)))
+            extra.append(len(ex_jobs))
+            jobs += ex_jobs
         res = list(ex.map(_crash_job, jobs, chunksize=4))
     k = 0
-    for wd, sc, d in zip(wds, scs, datas):
+    for d, nx in zip(datas, extra):
         n_ev = len([e for e in d["events"] if e["ev"] not in ("end", "info")])
         d["results"] = res[k:k + n_ev]
-        k += n_ev
+        d["extra_results"] = res[k + n_ev:k + n_ev + nx]
+        k += n_ev + nx
     return datas
 
 
 def run_scenario(ctx, sc, label, data, full_items, rr_items):
     kind = sc["scenario"]
     a0, events, afin, src_dirs, results = (data[k] for k in ("a0", "events", "afin", "src_dirs", "results"))
-    for sig, what in judge(afin, "uninterrupted"):
+    v0 = judge_step([a0], afin, events, "uninterrupted") + ws_verdicts(sc, afin, "uninterrupted")
+    for sig, what in v0:
         ctx.oracle_fail(sig, what, {"scenario": jsonable(sc), "kill_at": 0})
+    bad0 = any(s_.startswith("C15:blessed-mismatch") for s_, _ in v0)
     body = [e for e in events if e["ev"] not in ("end", "info")]
     N = len(body)
     ctx.count(f"events:{kind}", N)
@@ -941,7 +1078,7 @@ def run_scenario(ctx, sc, label, data, full_items, rr_items):
         if e["ev"] == "write" and e.get("part"):
             parts[body[i + 1]["md5"]] = e["md5"]
     try:
-        steps, cuts, _tm = abstract(names, events)
+        steps, cuts, _tm = abstract(names, events, n_old_tmps=len(a0["tmps"]))
         junk0 = bool(_tm["__junk__"]) and bool(sc.get("bad_src"))
     except Unmodelled as exc:
         ctx.broken("correspondence", "correspondence:trace-abstraction",
@@ -971,7 +1108,7 @@ def run_scenario(ctx, sc, label, data, full_items, rr_items):
                        f"the store after a kill at event {n} of scenario {label} differs from the store the "
                        "uninterrupted run had before that event", case=case,
                        detail={"crashed": str(view), "recorded": str(snap_view(body[n - 1]["before"]))})
-        verdicts = classify(sc, r)
+        verdicts = classify(sc, r, a0)
         for sig, what in verdicts:
             ctx.oracle_fail(sig, what, case)
         known_hit = any(sig == KNOWN_SIG for sig, _ in verdicts)
@@ -994,6 +1131,7 @@ def run_scenario(ctx, sc, label, data, full_items, rr_items):
                            "machine does not have", detail=str(exc), case=case)
                 continue
             bad = any(s_.startswith("C15:blessed-mismatch") for s_, _ in verdicts if "after-crash" not in s_)
+            bad = bad or any(x[0].startswith("C15:blessed") for x in judge(r["a1"], "x"))
             v2 = audit_view(r["a2"])
             term = ("(mkT %s %s [%d] %s %s %s %s)" % (
                 kids_t, parts_t, rcuts[-1], empty_t, world_term(names, view[0], view[1], r["a1"]["rows"]),
@@ -1009,10 +1147,114 @@ def run_scenario(ctx, sc, label, data, full_items, rr_items):
     term = "(mkT %s %s %s %s %s %s %s)" % (
         kids_t, parts_t, "[" + "; ".join(str(c) for c in cuts) + "]", empty_t,
         world_term(names, init_view[0], init_view[1], a0["rows"]), steps_term(steps),
-        scen_term(names, sc, events, steps, cuts, 0))
-    exp = "VL [VN %d; VN 1; VL [%s]; VN 1]" % (0 if junk0 else 1, "; ".join(cut_worlds))
+        scen_term(names, sc, events, steps, cuts, len(a0["tmps"])))
+    exp = "VL [VN %d; VN %d; VL [%s]; VN 1]" % (0 if (junk0 or bad0) else 1, 0 if bad0 else 1, "; ".join(cut_worlds))
     if len(cut_worlds) == len(cuts):
         full_items.append(({"scenario": jsonable(sc), "kill_at": 0}, term, exp))
+    # ---- kills inside a state transaction, double crashes: judged by the oracle
+    plain = {r["n"]: r for r in results}
+    for r in data.get("extra_results", []):
+        n = r["n"]
+        case = {"scenario": jsonable(sc), "kill_at": n, "kill_mode": r["mode"], "second_kill_at": r["m"],
+                "event": {k: v for k, v in body[n - 1].items() if k != "before"}}
+        ctx.case(case, nontrivial=True)
+        ctx.count("crash-kind:" + (r["mode"] or "double"))
+        if r["rc"] != 77:
+            ctx.broken("correspondence", "correspondence:crash-injection",
+                       f"the child was not killed at event {n} ({r['mode']}) of scenario {label} (exit {r['rc']})",
+                       detail=r["err"], case=case)
+            continue
+        if r["mode"] == "mid_state" and n in plain:
+            # a transaction killed half-way leaves exactly what a kill before it leaves (SQLite atomicity)
+            pa = plain[n]["a1"]
+            if audit_view(r["a1"]) != audit_view(pa) or r["a1"]["rows"] != pa["rows"]:
+                ctx.broken("correspondence", "correspondence:state-transaction-atomic",
+                           f"a kill inside the state transaction at event {n} of scenario {label} left another store "
+                           "/ other visible state rows than a kill before it", case=case,
+                           detail={"mid": str(r["a1"]["rows"]), "before": str(pa["rows"])})
+        verdicts = classify(sc, r, a0)
+        for sig, what in verdicts:
+            ctx.oracle_fail(sig, what, case)
+        if r["rc2"] == 0 and not any(s_.startswith("C15:blessed") for s_, _ in verdicts):
+            o2 = {o: (m, mode) for o, (m, mode, _b) in r["a2"]["objs"].items()}
+            of = {o: (m, mode) for o, (m, mode, _b) in afin["objs"].items()}
+            if o2 != of:
+                ctx.oracle_fail("C15:not-converged",
+                                f"after the re-run the store differs from the uninterrupted run's: "
+                                f"{sorted(set(o2.items()) ^ set(of.items()))[:4]}", case)
+
+
+NAMES_TREE = {  # section 1 of the audit: names (they reach the store only through the directory listings)
+    "we\\ird.txt": b"W1", "sp ace": b"S1", ".hidden": b"H1", "\u043a\u0438\u0440": b"K1", "\u65e5\u672c/\U0001f600": b"E1",
+    "cafe\u0301.txt": b"N1", "caf\u00e9.txt": b"N2", "x.dir": b"XD", "imgs/a": b"I1", "imgs_raw/a": b"I2",
+    "imgs.bak": b"I3", "q": b"Q", "L" * 200: b"LONG", "Case": b"c1", "case/inner": b"c2"}
+
+
+def corpus(ctx):
+    """fixed cases reaching, in EVERY run, the dimensions of tools/COVERAGE_AUDIT.md that are meaningful here"""
+    big = ctx.tier != "quick"
+    T = {"a": b"AAA", "d/b": b"BB"}
+    T3 = {"a": b"AAA", "d/b": b"BB", "d/z": b""}
+    names_small = {k: NAMES_TREE[k] for k in ("we\\ird.txt", "sp ace", ".hidden", "\u65e5\u672c/\U0001f600",
+                                              "cafe\u0301.txt", "caf\u00e9.txt", "x.dir")}
+    shapes = {"one/two/three/f": b"DEEP", "one/two/three/g": b"DEEP", "one/dup": b"DEEP", "zero": b"", "solo/only": b"ONE"}
+    out = [
+        # flags: hardlink x verify (per call / store default) x check_exists x shallow
+        dict(scenario="stage_transfer", tree=T, hardlink=True, verify=True, label="hardlink+verify"),
+        dict(scenario="stage_transfer", tree=T3, hardlink=True, store_verify=True, label="hardlink+store-verify"),
+        dict(scenario="stage_transfer", tree=T, shallow=True, label="shallow"),
+        dict(scenario="store_transfer", tree=T, shallow=True, src_mode=0o644, label="shallow+unprotected-source"),
+        dict(scenario="store_transfer", tree=T, verify=True, src_mode=0o644, pre=[(b"AAA", 0o644)],
+             label="verify+unprotected-source+right-unprotected"),
+        dict(scenario="add", tree=T, check_exists=False, label="add-no-check-exists"),
+        dict(scenario="add", tree=T3, hardlink=True, label="add-hardlink"),
+        # (add(hardlink=True, check_exists=False) is not re-runnable by contract: see the report / RULE)
+        dict(scenario="add", tree=T, hardlink=True, verify=True, label="add-hardlink+verify"),
+        dict(scenario="save", tree=T3, hardlink=True, label="save-hardlink"),
+        dict(scenario="upload", tree=T, verify=True, label="upload+verify"),
+        # the store the operation starts from (section 5): the inv stores of the theorems
+        dict(scenario="stage_transfer", tree=T3, pre=[(b"AAA", 0o644, b"corrupt!"), (b"BB", 0o444)], tmp_left=True,
+             label="pre:corrupt-unprotected+right-protected+temps"),
+        dict(scenario="stage_transfer", tree=T, pre=[(b"AAA", 0o644, b""), (b"BB", 0o644)],
+             label="pre:empty-leftover+right-unprotected"),
+        dict(scenario="save", tree=T, pre=[(b"BB", 0o644)], tmp_left=True, label="pre:right-unprotected+temps (check_exists)"),
+        dict(scenario="save", tree=T, pre=[(b"AAA", 0o644, b"")], label="pre:empty-leftover (check_exists: known class)"),
+        dict(scenario="save", tree=T, verify=True, pre=[(b"AAA", 0o644, b"")], label="pre:empty-leftover, verify"),
+        # store class
+        dict(scenario="save", tree=T, cls="base", label="base-store save"),
+        dict(scenario="add", tree=T, cls="base", verify=True, label="base-store add+verify"),
+        # names and shapes
+        dict(scenario="stage_transfer", tree=names_small, label="names"),
+        dict(scenario="save", tree={"d/" + k: v for k, v in list(names_small.items())[:4]}, label="names (index.save)"),
+        dict(scenario="stage_transfer", tree=shapes, hardlink=True, empty_dirs=["hollow/inner", "one/two/void"],
+             label="shapes: depth>=3, duplicates, zero-length, one-file dir, empty dirs"),
+    ]
+    out += [dict(scenario="stage_transfer", tree={}, empty_dirs=["only/empty"], label="empty listing (stage+transfer)"),
+            dict(scenario="save", tree={}, empty_dirs=["only/empty", "void"], label="empty listing (index.save)")]
+    if os.environ.get("C15_PENDING"):
+        # FINDING reported to the lead, not yet recorded in known_findings.json (kept out of the default run so
+        # that the unchanged tree stays green): a destination of the GENERIC store class on a local file system
+        # answers the existence query by listing, so the reflink probe's empty leftover counts as present, is
+        # never re-copied, and the directory object listing it is uploaded (C15:open-directory:after-rerun,
+        # C15:not-converged at the kill between the probe's create and its unlink)
+        out += [dict(scenario="stage_transfer", tree=T, cls="base", label="PENDING base-store transfer"),
+                dict(scenario="stage_transfer", tree=T, cls="base", verify=True, label="PENDING base-store transfer+verify")]
+    if big:
+        out += [
+            dict(scenario="stage_transfer", tree=NAMES_TREE, label="names (all)"),
+            dict(scenario="save", tree=NAMES_TREE, verify=True, label="names (all, index.save, verify)"),
+            dict(scenario="multi_store", tree=None, shallow=False, src_mode=0o644, label="multi+unprotected-source"),
+            dict(scenario="upload", tree=shapes, hardlink=True, label="upload+hardlink"),
+            dict(scenario="save", tree=shapes, store_verify=True, hardlink=True, empty_dirs=["hollow/inner"],
+                 label="save: store-verify+hardlink, shapes"),
+            dict(scenario="store_transfer", tree=T3, pre=[(b"AAA", 0o644, b"junk"), (b"", 0o644)], tmp_left=True,
+                 hardlink=True, label="store->store hardlink, pre corrupt"),
+        ]
+    for sc in out:
+        sc.setdefault("pre", [])
+        if sc["tree"] is None:
+            sc["tree"], sc["roots"] = gen_multi(ctx.rng, False)
+    return out
 
 
 def scenarios(ctx):
@@ -1021,7 +1263,9 @@ def scenarios(ctx):
     out = []
     # (kind, per-call verify, store default verify)
     kinds = [("stage_transfer", False, False), ("save", False, False), ("store_transfer", False, False),
-             ("upload", False, False), ("save", True, False), ("add", True, False), ("save", False, True)]
+             ("upload", False, False), ("save", True, False), ("save", False, True)]
+    if big:
+        kinds.append(("add", True, False))
     # (several STAGED trees cannot go through one transfer(): every build() returns its own in-memory
     # reference store, so the multi-directory transfer is exercised store -> store)
     kinds += [("multi_store", False, False), ("bad_src", True, False), ("hardlink", False, False)]
@@ -1057,7 +1301,7 @@ def scenarios(ctx):
                 b = tree[sorted(tree)[rng.randrange(len(tree))]]
                 sc["pre"] = [(b, rng.choice([0o444, 0o644]))]
             out.append(sc)
-    return out
+    return corpus(ctx) + out
 
 
 def run(ctx):
@@ -1081,7 +1325,56 @@ def run(ctx):
     ctx.correspond("trace", IMPORTS, "tcase", model, full_items, shard=1)
     ctx.correspond("rerun", IMPORTS, "tcase", model, rr_items, shard=50)
     ctx.extra["crash_points"] = ctx.evaluations
-    ctx.extra["scenarios"] = [sc["scenario"] for sc in scs]
+    ctx.extra["scenarios"] = [sc.get("label") or sc["scenario"] for sc in scs]
+    dims = {}
+
+    def dim(name, k=1):
+        dims[name] = dims.get(name, 0) + k
+
+    for sc, data in zip(scs, datas):
+        npts = len(data["results"])
+        dim("op:" + sc["scenario"], npts)
+        for fl in ("hardlink", "verify", "store_verify", "shallow", "tmp_left"):
+            if sc.get(fl):
+                dim("flag:" + fl, npts)
+        if sc.get("hardlink") and (sc.get("verify") or sc.get("store_verify")):
+            dim("flag:hardlink+verify", npts)
+        if sc["scenario"] == "add":
+            dim("flag:check_exists=" + str(bool(sc.get("check_exists", True))), npts)
+        dim("store-class:" + sc.get("cls", "local"), npts)
+        if sc["scenario"] in ("store_transfer", "multi_store"):
+            dim("source:store-" + ("protected" if sc.get("src_mode", 0o444) == 0o444 else "unprotected"), npts)
+        elif sc["scenario"] == "upload":
+            dim("source:upload-temp", npts)
+        else:
+            dim("source:workspace(+memfs staging for directory objects)", npts)
+        for e in sc.get("pre", []):
+            data_ = e[2] if len(e) > 2 and e[2] is not None else e[0]
+            kind_ = ("right" if data_ == e[0] else "empty-leftover" if data_ == b"" else "corrupt")
+            dim("pre:%s-%s" % (kind_, "protected" if e[1] == 0o444 else "unprotected"), npts)
+        if not sc.get("pre") and not sc.get("tmp_left"):
+            dim("pre:empty-store", npts)
+        vals = list(sc["tree"].values())
+        if b"" in vals:
+            dim("shape:zero-length-file", npts)
+        if len(set(vals)) < len(vals):
+            dim("shape:duplicate-contents", npts)
+        if sc.get("empty_dirs"):
+            dim("shape:empty-directories", npts)
+        if any(k.count("/") >= 3 for k in sc["tree"]):
+            dim("shape:depth>=3", npts)
+        if any(ord(c) > 127 or c in "\\ " or k.startswith(".") or k.endswith(".dir") or len(k) > 150
+               for k in sc["tree"] for c in k):
+            dim("names:unusual", npts)
+        if sc.get("roots"):
+            dim("shape:several-directories-sharing-files", npts)
+        if sc.get("bad_src"):
+            dim("source:corrupt-object", npts)
+        for r in data.get("extra_results", []):
+            dim("crash:" + ("inside-state-transaction" if r["mode"] else "second-crash-during-rerun"))
+        dim("crash:between-protect-and-state-save",
+            sum(1 for e in data["events"] if e["ev"] == "state"))
+    ctx.extra["input_dimensions"] = dict(sorted(dims.items()))
 
 
 def replay_case(ctx, case):
